@@ -866,7 +866,7 @@ func main() {
 				for range structs[g.ret] {
 					zs = append(zs, "0")
 				}
-				pre = fmt.Sprintf("let %s := mk%s %s in\n  ", g.retVar, g.ret, strings.Join(zs, " "))
+				pre = fmt.Sprintf("let %s := mk%s %s in\n  ", g.retVar, bare(g.ret), strings.Join(zs, " "))
 			} else if g.ret == "bool" {
 				pre = fmt.Sprintf("let %s := false in\n  ", g.retVar)
 			} else {
